@@ -5,3 +5,4 @@ import PyhmsVerif.Props.C01
 import PyhmsVerif.Props.C05
 import PyhmsVerif.Props.C06
 import PyhmsVerif.Props.C14
+import PyhmsVerif.Props.C13
